@@ -8,6 +8,6 @@ namespace Raft.C15Pipe
 open Raft.Chan
 
 theorem pipeSys_live : ∀ s, Reachable pipeSys s → alwaysLive s = true :=
-  checkAll_sound (fuel := 3000) (by decide +kernel)
+  checkAll_sound (fuel := 3500) (by decide +kernel)
 
 end Raft.C15Pipe
